@@ -36,6 +36,7 @@ type Case struct {
 	Via       int         `json:"via"`              // 0 Logger.Log, 1 level method, 2 LogAttrs, 3 Handler.Handle with a chosen time, 4 Logf / level-f methods (record attributes dropped)
 	Decoys    bool        `json:"decoys,omitempty"` // derive sibling loggers from every parent of the chain
 	TimeNs    int64       `json:"time_ns,omitempty"`
+	TimeSec   int64       `json:"time_sec,omitempty"` // with Via 3: seconds since the epoch (reaches years outside 1678..2262)
 	ZoneSec   int         `json:"zone_sec,omitempty"`
 }
 
@@ -53,12 +54,20 @@ var ctx = context.Background()
 
 // mark returns args unchanged and records the source line of its caller's call expression.
 func mark(line *int, args []any) []any {
-	_, _, *line, _ = runtime.Caller(1)
+	_, callFile, *line, _ = runtime.Caller(1)
 	return args
 }
 
+// callFile is the file of the last marked call site (it differs from this file under a
+// //line directive, see odd.go).
+var callFile string
+
+func lastTwo(f string) string {
+	return filepath.Base(filepath.Dir(f)) + "/" + filepath.Base(f)
+}
+
 func markA(line *int, attrs []slog.Attr) []slog.Attr {
-	_, _, *line, _ = runtime.Caller(1)
+	_, callFile, *line, _ = runtime.Caller(1)
 	return attrs
 }
 
@@ -90,6 +99,26 @@ func emit(l *logger.Logger, cs Case, args []any) (line int) {
 			attrs = append(attrs, n.Attr())
 		}
 		l.LogAttrs(ctx, levels[cs.Rec.Level], msg, markA(&line, attrs)...)
+	case 5: // Panic: logs at ERROR with attributes, then panics with the message
+		func() {
+			defer func() {
+				if r := recover(); r != msg {
+					panic(fmt.Sprintf("Logger.Panic panicked with %v, want the message", r))
+				}
+			}()
+			l.Panic(msg, mark(&line, args)...)
+		}()
+	case 6: // Panicf
+		func() {
+			defer func() {
+				if r := recover(); r != msg {
+					panic(fmt.Sprintf("Logger.Panicf panicked with %v, want the message", r))
+				}
+			}()
+			l.Panicf("%s", mark(&line, []any{msg})...)
+		}()
+	case 7: // a call site whose file name needs quoting / escaping (//line directive in odd.go)
+		line = emitOdd(l, cs, args)
 	case 4: // formatted message, no attributes of its own
 		switch cs.Rec.Level {
 		case 0:
@@ -124,8 +153,11 @@ func runCase(cs Case, st *stats) (key, expected, observed string) {
 }
 
 func runOnce(cs Case, st *stats) (key, expected, observed string) {
-	if cs.Via == 4 {
+	if cs.Via == 4 || cs.Via == 6 {
 		cs.Rec.Attrs = nil // the f-methods take no attributes
+	}
+	if cs.Via == 5 || cs.Via == 6 {
+		cs.Rec.Level = 3 // Panic / Panicf log at ERROR
 	}
 	var out capture
 	var h logger.Handler = logger.NewTextHandler(&out, logger.NewOptions(logger.LevelDebug, false, cs.AddSource))
@@ -146,7 +178,7 @@ func runOnce(cs Case, st *stats) (key, expected, observed string) {
 					h = h.WithAttrs(attrs)
 				}
 			}
-			chosen = time.Unix(0, cs.TimeNs).In(time.FixedZone("", cs.ZoneSec))
+			chosen = time.Unix(cs.TimeSec, cs.TimeNs).In(time.FixedZone("", cs.ZoneSec))
 			r := slog.NewRecord(chosen, levels[cs.Rec.Level], string(cs.Rec.Msg), 0)
 			for _, n := range cs.Rec.Attrs {
 				r.AddAttrs(n.Attr())
@@ -200,6 +232,9 @@ func runOnce(cs Case, st *stats) (key, expected, observed string) {
 		return "time", "first pair is time=…", show()
 	}
 	pt, err := time.Parse(time.RFC3339, p.Val)
+	if y := chosen.Year(); cs.Via == 3 && (y < 0 || y > 9999) {
+		err, pt = nil, chosen // outside the years RFC 3339 can spell: only the exact text is compared
+	}
 	if err != nil {
 		return "time", "time in RFC3339", fmt.Sprintf("%q: %v", p.Val, err)
 	}
@@ -220,7 +255,7 @@ func runOnce(cs Case, st *stats) (key, expected, observed string) {
 		}
 		if cs.Via != 3 {
 			st.withSource++
-			if w := thisFile + ":" + strconv.Itoa(line); p.Val != w {
+			if w := lastTwo(callFile) + ":" + strconv.Itoa(line); p.Val != w {
 				return "source", "source=" + w, p.Val
 			}
 		}
@@ -275,7 +310,7 @@ func (r relog) LogValue() slog.Value {
 // a LogValuer inside a group logs through the same logger while the outer record is being
 // formatted. Every written line must tokenise and carry exactly its own record.
 func runShared(n int, st *stats) (key, expected, observed string) {
-	groups := [][]string{{"g"}, {"req"}, {"a", "b"}, {"g", "h", "i"}}[n%4]
+	groups := [][]string{{"g"}, {"req"}, {"a", "b"}, {"g", "h", "i"}, {}}[n%5] // {}: no open group at all
 	w := recw.New(20000, 0)
 	l := logger.New(logger.NewTextHandler(w, logger.NewOptions(logger.LevelDebug, false, false)))
 	if n%3 == 0 {
@@ -285,6 +320,9 @@ func runShared(n int, st *stats) (key, expected, observed string) {
 		l = l.WithGroup(g)
 	}
 	prefix := strings.Join(groups, ".") + "."
+	if len(groups) == 0 {
+		prefix = ""
+	}
 	var pre []string
 	if n%3 == 0 {
 		pre = []string{"pre", strconv.Itoa(n)}
@@ -399,6 +437,10 @@ func (mon) Plan(prop, tier string, seed int64) []drv.Shard {
 		out = append(out, drv.Shard{Name: fmt.Sprintf("shape-%d", p), Args: a})
 		a, _ = json.Marshal(shardArgs{Kind: "rand", Part: p, Parts: parts, Count: nrand / parts})
 		out = append(out, drv.Shard{Name: fmt.Sprintf("rand-%d", p), Args: a})
+		if p == 0 {
+			a, _ = json.Marshal(shardArgs{Kind: "times"})
+			out = append(out, drv.Shard{Name: "times", Args: a})
+		}
 		if p < 4 {
 			a, _ = json.Marshal(shardArgs{Kind: "sibling", Part: p, Parts: 4})
 			out = append(out, drv.Shard{Name: fmt.Sprintf("sibling-%d", p), Args: a})
@@ -419,7 +461,7 @@ func strCase(s string, i int) Case {
 	if len(b) > 0 {
 		rec.Chain = append(rec.Chain, attrgen.ChainOp{IsGrp: true, Group: b})
 	}
-	return Case{Rec: rec, Via: []int{0, 1, 2, 4, 0, 1}[i%6], Decoys: i%2 == 0, AddSource: i%7 == 0}
+	return Case{Rec: rec, Via: []int{0, 1, 2, 4, 5, 6, 7, 0}[i%8], Decoys: i%2 == 0, AddSource: i%7 == 0}
 }
 
 func (mn mon) Run(sh drv.Shard, c *drv.Ctx) {
@@ -455,7 +497,7 @@ func (mn mon) Run(sh drv.Shard, c *drv.Ctx) {
 			if idx%a.Parts != a.Part {
 				return true
 			}
-			cs := Case{Rec: r, Decoys: idx%3 == 0, Via: idx / a.Parts % 5, AddSource: idx%5 == 0, TimeNs: int64(idx) * 1000003, ZoneSec: (idx%27 - 13) * 3600}
+			cs := Case{Rec: r, Decoys: idx%3 == 0, Via: idx / a.Parts % 8, AddSource: idx%5 == 0, TimeNs: int64(idx) * 1000003, ZoneSec: (idx%27 - 13) * 3600}
 			if cs.Via == 2 {
 				cs.Via = 0 // LogAttrs cannot carry pair arguments; shapes use attrs only, keep Log
 			}
@@ -472,6 +514,19 @@ func (mn mon) Run(sh drv.Shard, c *drv.Ctx) {
 			if k != "" {
 				c.Violate(k, map[string]any{"shared_run": i + a.Part*1000}, e, o)
 				return
+			}
+		}
+	case "times":
+		secs := []int64{253402300799, 253402300800, 253402297200, 569057875200, -62167219200, -62167219201, -62198755200, -1, 0, 1, 4102444800}
+		idx := 0
+		for _, sec := range secs {
+			for _, zone := range []int{0, 3600, -3600, 50400, -43200} {
+				idx++
+				rec := attrgen.Rec{Msg: []byte("m"), Level: idx % 5, Attrs: []attrgen.Node{{Key: []byte("k"), Val: &attrgen.Val{T: "int", I: int64(idx)}}}}
+				cs := Case{Rec: rec, Via: 3, TimeSec: sec, ZoneSec: zone}
+				if !exec(cs, fmt.Sprintf("time %d/%d", sec, zone)) {
+					return
+				}
 			}
 		}
 	case "sibling":
@@ -510,7 +565,7 @@ func (mn mon) Run(sh drv.Shard, c *drv.Ctx) {
 		r := rand.New(rand.NewSource(sh.Seed*1000003 + int64(a.Part)))
 		for i := 0; i < a.Count; i++ {
 			rec := attrgen.RandRec(r)
-			cs := Case{Rec: rec, Via: r.Intn(5), Decoys: r.Intn(2) == 0, AddSource: r.Intn(3) == 0, TimeNs: r.Int63n(7e18), ZoneSec: (r.Intn(27) - 13) * 1800}
+			cs := Case{Rec: rec, Via: r.Intn(8), Decoys: r.Intn(2) == 0, AddSource: r.Intn(3) == 0, TimeNs: r.Int63n(7e18), ZoneSec: (r.Intn(27) - 13) * 1800}
 			if cs.Via == 2 {
 				for i := range cs.Rec.Attrs {
 					cs.Rec.Attrs[i].Pair = false
